@@ -62,7 +62,8 @@ def gen_long(rng, tier):
     for _ in range(1 if tier == 'quick' else 6):       # transitions with probability below 1e-5
         labs, akind = G.alphabet(rng, k=rng.randint(2, 4))
         rle = G.rare_rle(rng, labs)
-        yield {'trajs': None, 'rle': rle, 'lag': 1, 'S': [labs[0]], 'F': [labs[1]], 'steps': 2000,
+        others = sorted({a for a, _ in rle[0]} - {labs[0]})
+        yield {'trajs': None, 'rle': rle, 'lag': 1, 'S': [labs[0]], 'F': [others[0]], 'steps': 2000,
                'seed': rng.randrange(2**31), 'npseed': rng.randrange(2**31), 'alpha': akind, 'mal': None, 'long': 'rare'}
     for _ in range(2 if tier == 'quick' else 4):
         # a lag time of 1e6 frames and a transition of probability 1e-4: durations x lag exceed 2^31
